@@ -338,6 +338,16 @@ impl EngA {
                         }
                     },
                 };
+                // the other entry points agree: str::parse::<Range>, serde Deserialize, Version::satisfies
+                if devs.len() <= 1 {
+                    let n = self.u.len();
+                    let via_fromstr = guarded(|| text.parse::<Range>()).ok().and_then(|x| x.ok()).map(|x| bound_key(&x.verif_bounds()));
+                    let via_serde = guarded(|| serde_json::from_value::<Range>(serde_json::Value::String(text.clone()))).ok().and_then(|x| x.ok()).map(|x| bound_key(&x.verif_bounds()));
+                    let vs_ok = [0usize, n / 3, n / 2, n - 1].iter().all(|&i| guarded(|| self.u.vs[i].satisfies(&r)).map(|x| x == sat.get(i)).unwrap_or(false));
+                    if via_fromstr.as_deref() != Some(key.as_str()) || via_serde.as_deref() != Some(key.as_str()) || !vs_ok {
+                        sink.report("entry-points", format!("text={}", text), self.case(prog, devs), format!("Range::parse={} FromStr={:?} Deserialize={:?} Version::satisfies agrees={}", key, via_fromstr, via_serde, vs_ok), "all entry points agree".into());
+                    }
+                }
                 // history independence: parsing the same text again, after all the satisfies calls,
                 // gives the same value and the same answers
                 if let Ok(Ok(r2)) = guarded(|| Range::parse(&text)) {
